@@ -453,6 +453,42 @@ def check_obj_var_obj(case, ctx):
         return
     # the variable vector is the stacked vector without the implied entries
     ctx.close(var, x[free], 0.0, "to_var:value")
+    # the vector handed out is the caller's: editing it in place (an optimiser's update) does not reach the object, and the
+    # conversion asked again describes the object as it is now - also after the object was zeroed in place
+    handed = q.to_var()
+    stored = []
+    for nm in ("_vec", "_hs", "_vecs", "_hss"):
+        a_ = getattr(q, nm, None)
+        if isinstance(a_, np.ndarray):
+            stored.append(a_)
+        elif isinstance(a_, (list, tuple)):
+            stored.extend(x_ for x_ in a_ if isinstance(x_, np.ndarray))
+    if isinstance(handed, np.ndarray) and any(np.shares_memory(handed, a) for a in stored):
+        # (State.to_var() of the unconstrained parametrisation IS the stored vector, like the accessor .vec: writing into
+        # it is writing into the object through its accessor - the library's convention, nothing is asserted about it)
+        ctx.label("to_var:hands-out-the-stored-array")
+    elif isinstance(handed, np.ndarray) and handed.size and handed.flags.writeable:
+        handed += 1.0
+        handed *= -3.0
+        again = var_of(ctx, q, nv, "to_var:again")
+        if again is not None:
+            ctx.close(again, x[free], 0.0, "to_var:unchanged_after_caller_edited_the_vector_handed_out")
+        s_again = stacked_of(ctx, q, L, "obj_stacked:again")
+        if s_again is not None:
+            ctx.close(s_again, x, 0.0, "obj_stacked:unchanged_after_caller_edited_the_var_handed_out")
+    qz = make_obj(cfg, x)
+    qz.to_var()
+    try:
+        qz.set_zero()
+        zeroed = True
+    except Exception:
+        zeroed = False
+    if zeroed:
+        sz = stacked_of(ctx, qz, L, "set_zero:stacked")
+        vz = var_of(ctx, qz, nv, "set_zero:to_var")
+        if sz is not None and vz is not None:
+            ctx.close(sz, np.zeros(L), 0.0, "set_zero:stacked_is_zero")
+            ctx.close(vz, np.zeros(nv), 0.0, "set_zero:to_var_describes_the_zeroed_object")
     q2 = q.generate_from_var(var)
     check_same_kind(ctx, cfg, q, q2, flag, "regenerated")
     s2 = stacked_of(ctx, q2, L, "regenerated")
